@@ -231,6 +231,13 @@ package linux
 // stays what it is, so that it never compares equal to a --set-mark rule
 //vc:  invariant[C05] 1 "for k, v := range pairs" @xmarkUntouchedByValueRewriting (("--set-xmark" in pairs) == loopold("--set-xmark" in pairs)) && pairs["--set-xmark"] == loopold(pairs["--set-xmark"])
 //vc:  ensures[C05] @xmarkWithOtherMaskKept old("--set-xmark" in pairs) && strings.Cut$2(old(pairs["--set-xmark"]), "/") && strings.ToLower(strings.Cut$1(old(pairs["--set-xmark"]), "/")) != "0xffffffff" ==> ("--set-xmark" in pairs) && pairs["--set-xmark"] == old(pairs["--set-xmark"])
+// --state: the whole list of states is split at every comma, sorted and joined
+// again, so that any order of any number of states has one normal form
+// (structural guards on the three statements; their combined effect on the
+// text is not specified)
+//vc:  assert[C05] after "l := strings.Split(v" @stateListSplitAtEveryComma true
+//vc:  assert[C05] at "sort.Strings(l)" @wholeStateListSorted true
+//vc:  assert[C05] after "v = strings.Join(l" @sortedStatesJoined true
 //vc:  ensures[C05] @everyOptionInNormalForm forall c string :: { pairs[c] } !specialKey(c) && (c in pairs) ==> normRel(c, old(pairs[c]), pairs[c])
 //vc:  ensures[C05] @noOptionAddedOrLost forall c string :: { c in pairs } !specialKey(c) ==> ((c in pairs) == old(c in pairs))
 
